@@ -31,11 +31,11 @@ COMPONENTS = {
     "stub_or_harness": ["history generator", "WriterModel reference model"],
 }
 PROBES = [
-    "same_string_in_both_modes", "argument_of_a_subclass_type", "bytearray_handed_to_add_bytes", "packet_into_sanitising_writer", "caller_mode_on_around_generated_code", "generated_enum_width_overrides", "generated_serializer_after_chunked", "generated_plain_struct_in_both_modes", "second_writer_interleaved", "refusal_on_nonempty_buffer", "refusal_right_after_mode_toggle", "perfect_fit_padded",
+    "same_string_in_both_modes", "argument_of_a_subclass_type", "two_writer_threads_interleaved", "bytearray_handed_to_add_bytes", "packet_into_sanitising_writer", "caller_mode_on_around_generated_code", "generated_enum_width_overrides", "generated_serializer_after_chunked", "generated_plain_struct_in_both_modes", "second_writer_interleaved", "refusal_on_nonempty_buffer", "refusal_right_after_mode_toggle", "perfect_fit_padded",
     "y_diaeresis_sanitized", "y_diaeresis_unsanitized", "to_bytearray_is_copy", "refusal_far_beyond_limit",
     "refusal_string_one_too_long", "refusal_string_one_too_short",
 ]
-FAULT_KINDS = ["refused_write"]
+FAULT_KINDS = ["preemption_between_lines", "refused_write"]
 
 INT_OPS = ["add_byte", "add_char", "add_short", "add_three", "add_int"]
 STR_OPS = ["add_string", "add_encoded_string", "add_fixed_string", "add_fixed_encoded_string"]
@@ -81,7 +81,59 @@ def generate(streams, tier):
     if rng.random() < 0.03:
         plan["generated"] = {"inside": pool.get(vr), "tail": pool.get(vr), "flag": gen_int_in_range(vr, "char"),
                              "entry": rng.random() < 0.3}
+    if rng.random() < 0.02:
+        # two caller threads, each with a writer of its own, at the same time (sim/interleave.py)
+        plan["interleave"] = [rng.randrange(1, 9) for _ in range(rng.randrange(4, 80))]
     return plan
+
+
+def concurrent_writers(plan, EoWriter, res, tr):
+    """The accepted writes of the plan, dealt to two writers that two caller threads fill at the same time under
+    a scheduled interleaving; each writer must end up with exactly what the model gives it alone."""
+    from ..interleave import Interleaver, InterleaveStall
+    hands = ([], [])
+    models = (WriterModel(), WriterModel())
+    k = 0
+    for op in plan["ops"]:
+        name, args = op[0], list(op[1:])
+        if name not in STR_OPS and name not in INT_OPS and name not in ("add_byte", "add_bytes"):
+            continue
+        if name == "add_bytes":
+            args = [bytes(args[0])]
+        try:
+            models[k % 2].apply(name, args)
+        except Rejected:
+            continue
+        hands[k % 2].append((name, args))
+        k += 1
+    if not hands[0] or not hands[1]:
+        return None
+
+    def caller(ops_):
+        def run():
+            w = EoWriter()
+            for name, args in ops_:
+                getattr(w, name)(*args)
+            return bytes(w.to_bytearray())
+        return run
+
+    il = Interleaver(plan["interleave"], lambda filename: "eolib-verif-" in filename)
+    try:
+        results, errors = il.run(caller(hands[0]), caller(hands[1]))
+    except InterleaveStall as e:
+        return {"kind": "appended-bytes", "signature": "C09|concurrent-writers|stalled|sanitize=False",
+                "detail": f"two caller threads with a writer each did not both finish: {e}", "step": 0}
+    res.count("probe.two_writer_threads_interleaved")
+    res.count("fault.preemption_between_lines", il.switches)
+    tr.ev("interleave", il.switches, tuple(il.lines))
+    for i in (0, 1):
+        want = bytes(models[i].data)
+        if errors[i] is not None or results[i] != want:
+            got = f"raised {type(errors[i]).__name__}: {errors[i]}" if errors[i] is not None else results[i].hex()
+            return {"kind": "appended-bytes", "signature": "C09|concurrent-writers|appended-bytes|sanitize=False",
+                    "detail": f"caller thread {i} filling its own writer while another thread filled another one got {got}; alone the "
+                              f"same writes give {want.hex()} (schedule {plan['interleave'][:12]}..., {il.switches} switches)", "step": 0}
+    return None
 
 
 class _Tile(int):
@@ -398,6 +450,10 @@ def execute(plan, env):
             fail("mode-changed-by-write", name, "a write changed the sanitisation mode", step)
             break
         toggled_last = False
+    if plan.get("interleave") and res.violation is None:
+        v = concurrent_writers(plan, EoWriter, res, tr)
+        if v:
+            res.violation = v
     res.digest = tr.digest()
     res.steps = tr.steps
     res.sample = {"first_ops": [repr(o) for o in plan["ops"][:8]], "n_ops": len(plan["ops"])}
